@@ -312,7 +312,7 @@ pub static C08: PropSpec = PropSpec {
     id: "C08",
     simulator: "S-sim",
     level: "exploration",
-    runs: |t| if t == Tier::Thorough { 3_000_000 } else { 200_000 },
+    runs: |t| if t == Tier::Thorough { 30_000_000 } else { 200_000 },
     enumerated: |_| 0,
     run,
     rule: "one request of each reply type (lock, get, open-/close-configuration, load-configuration, commit-configuration) among 0-3 other outstanding requests; the server's reply is generated from the reply grammar: 0-4 rpc-error elements (all types/tags, severity error/warning, optional children) and positive indications in every order, at top level or inside load-configuration-results with consistent or inconsistent load-error-count. Non-trivial = the document contains at least one rpc-error; distinct = distinct event-log hash (includes the generated document)",
